@@ -1,0 +1,46 @@
+//! C32: bearer tokens with harness-chosen content, signed by the REAL domain key object.
+//!
+//! The validation path under test (`validate_client_auth_info_to_ident`) is public; what an
+//! external harness cannot do is sign: the key object handle is a crate-private trait object.
+//! These thin wrappers sign a token body exactly as the issuers do
+//! (`AuthSession` -> `jws_es256_sign` for user auth tokens, `service_account_generate_api_token`
+//! -> `jws_hs256_sign` for API tokens, both full JSON form and compact session-id form), so
+//! that token bodies no login can currently produce (no expiry, foreign account, unknown
+//! session, chosen issue time) reach every branch of the session checks.
+//! No behaviour of the server is changed.
+
+use crate::prelude::*;
+use compact_jwt::{jws::JwsBuilder, Jws};
+use kanidm_proto::internal::{ApiToken as ProtoApiToken, UserAuthToken};
+
+pub use compact_jwt::JwsCompact;
+
+/// Sign a user auth token body with the domain ES256 key valid at `ct` (as `AuthSession` does).
+pub fn sign_uat<'a, T: QueryServerTransaction<'a>>(
+    qs: &mut T,
+    uat: &UserAuthToken,
+    ct: Duration,
+) -> Result<JwsCompact, OperationError> {
+    let jws = Jws::into_json(uat).map_err(|_| OperationError::SerdeJsonError)?;
+    qs.get_domain_key_object_handle()?.jws_es256_sign(&jws, ct)
+}
+
+/// Sign an API token body (full JSON form) with the domain HS256 key valid at `ct`.
+pub fn sign_api_token<'a, T: QueryServerTransaction<'a>>(
+    qs: &mut T,
+    apit: &ProtoApiToken,
+    ct: Duration,
+) -> Result<JwsCompact, OperationError> {
+    let jws = Jws::into_json(apit).map_err(|_| OperationError::SerdeJsonError)?;
+    qs.get_domain_key_object_handle()?.jws_hs256_sign(&jws, ct)
+}
+
+/// Sign the compact API token form: the payload is the 16 bytes of the session id.
+pub fn sign_api_session_id<'a, T: QueryServerTransaction<'a>>(
+    qs: &mut T,
+    session_id: Uuid,
+    ct: Duration,
+) -> Result<JwsCompact, OperationError> {
+    let jws = JwsBuilder::from(session_id.as_bytes().to_vec()).build();
+    qs.get_domain_key_object_handle()?.jws_hs256_sign(&jws, ct)
+}
